@@ -1218,33 +1218,33 @@ package diam
 //@ # "re-serialisation of a decoded message never panics": the buffer is sized by what will be written (Len(), the sum
 //@ # over the decoded values), never by a length the input claimed
 //@ func (*Message).Serialize(m) (b, err)
-//@   property C02 C03
+//@   property C01 C02 C03
 //@   requires serialisable(m)
 //@   hint wf.def(m.AVP)
 //@   modifies
-//@   ensures [C02 C03] as_long_as_its_length: err == nil ==> len(b) == 20 + sumlen(m.AVP, len(m.AVP)) && fresh(b)
+//@   ensures [C01 C02 C03] as_long_as_its_length: err == nil ==> len(b) == 20 + sumlen(m.AVP, len(m.AVP)) && fresh(b)
 //@ end
 //@ func (*AVP).Serialize(a) (b, err)
-//@   property C02 C03
+//@   property C01 C02 C03
 //@   requires a != nil
 //@   requires valid_data: a.Data != nil ==> deepvalid(a.Data) && dlen(a.Data) >= 0 && dlen(a.Data) < (1<<24) - 12
 //@   modifies
-//@   ensures [C02 C03] as_long_as_its_length: err == nil ==> len(b) == avplen(a) && fresh(b)
+//@   ensures [C01 C02 C03] as_long_as_its_length: err == nil ==> len(b) == avplen(a) && fresh(b)
 //@   ensures nodata: a.Data == nil <==> err != nil
 //@ end
 //@ # the payload of a group: its members one after the other, each padded (the byte content is not stated here: the
 //@ # interface-level contract of Serialize for groups stays assumed, see DESIGN II.2)
 //@ func (*GroupedAVP).Serialize(g) (b)
-//@   property C02 C03
+//@   property C01 C02 C03
 //@   requires g != nil && wf(g.AVP) && len(g.AVP) < 1<<16 && sumlen(g.AVP, len(g.AVP)) >= 0 && sumlen(g.AVP, len(g.AVP)) < (1<<24) - 20
 //@   hint wf.def(g.AVP)
 //@   assumepre SerializeTo.separate: the byte views held by the members existed before the buffer that is allocated here
 //@   modifies
-//@   ensures [C02 C03] as_long_as_its_length: len(b) == sumlen(g.AVP, len(g.AVP)) && fresh(b)
+//@   ensures [C01 C02 C03] as_long_as_its_length: len(b) == sumlen(g.AVP, len(g.AVP)) && fresh(b)
 //@   loop 0
 //@     modifies b[0:len(b)]
 //@     invariant 0 - 1 <= rangeindex && rangeindex < len(g.AVP) && fresh(b) && len(b) == sumlen(g.AVP, len(g.AVP))
-//@     invariant [C02 C03] cursor: n == sumlen(g.AVP, rangeindex + 1)
+//@     invariant [C01 C02 C03] cursor: n == sumlen(g.AVP, rangeindex + 1)
 //@     hint sumlen.unfold(g.AVP, rangeindex + 2)
 //@     hint sumlen.mono(g.AVP, rangeindex + 2, len(g.AVP))
 //@     hint sumlen.mono(g.AVP, rangeindex + 1, len(g.AVP))
@@ -1276,4 +1276,18 @@ package diam
 //@   atcall Close: [C11 C15] closes_the_transport_of_this_connection: ARG0 == w.conn.rwc
 //@   modifies rwcclosed(w.conn.rwc)
 //@   ensures [C11 C15] closed: rwcclosed(w.conn.rwc) == old(rwcclosed(w.conn.rwc)) + 1
+//@ end
+//@
+//@ # the package-level helpers register with, and report through, the default multiplexer and nothing else (C09)
+//@ func Handle(cmd, handler)
+//@   property C09
+//@   requires handler != nil
+//@   assume the_default_mux_is_initialised: DefaultServeMux != nil && DefaultServeMux.idxMap != nil && DefaultServeMux.m != nil && ALL_CMD_INDEX == allidx()
+//@   atcall Handle: [C09] registers_with_the_default_mux: ARG0 == DefaultServeMux && ARG1 == cmd && ARG2 == handler
+//@ end
+//@ func HandleFunc(cmd, handler)
+//@   property C09
+//@   requires handler != nil
+//@   assume the_default_mux_is_initialised: DefaultServeMux != nil && DefaultServeMux.idxMap != nil && DefaultServeMux.m != nil && ALL_CMD_INDEX == allidx()
+//@   atcall HandleFunc: [C09] registers_with_the_default_mux: ARG0 == DefaultServeMux && ARG1 == cmd
 //@ end
